@@ -6,6 +6,7 @@ import (
 	"math/rand"
 	"strconv"
 	"strings"
+	"time"
 
 	"github.com/lindb/lindb/aggregation"
 	"github.com/lindb/lindb/pkg/bit"
@@ -61,16 +62,30 @@ func arithCase(c *core.Ctx, rng *rand.Rand) {
 				break
 			}
 		}
+		// half of the comparisons run with time.Local = a named zone (zone region)
+		leave := func() {}
+		if n >= 3 {
+			year := 2015 + rng.Intn(21)
+			var ok bool
+			if leave, ok = enterZone(c, zoneNames[rng.Intn(len(zoneNames))], year); ok {
+				c.Branch("zone-arith")
+			}
+		}
 		d, _ := pickDay(rng)
+		nhd := 24
+		if curZone != nil {
+			d, _ = pickZoneDay(rng, curZone.year)
+			nhd = hoursOfDay(d)
+		}
 		sc := timeutil.Interval(src).Calculator()
-		srcSeg := sc.CalcSegmentTime(d * day)
+		srcSeg := sc.CalcSegmentTime(localMidnight(d) + 12*hour)
 		var fTime int
 		famLen := hour
 		if timeutil.Interval(src).Type() == timeutil.Day {
-			fTime = []int{0, 23, rng.Intn(24), rng.Intn(24)}[rng.Intn(4)]
+			fTime = []int{0, nhd - 1, rng.Intn(nhd), rng.Intn(nhd)}[rng.Intn(4)]
 		} else {
-			fTime = sc.CalcFamily(d*day, srcSeg)
-			famLen = day
+			fTime = sc.CalcFamily(localMidnight(d)+12*hour, srcSeg)
+			famLen = localMidnight(d+1) - localMidnight(d)
 		}
 		nslots := int(famLen / src)
 		slots := []int{0, nslots - 1}
@@ -89,6 +104,11 @@ func arithCase(c *core.Ctx, rng *rand.Rand) {
 			fst := sc.CalcFamilyStartTime(srcSeg, fTime)
 			tSeg := tc.CalcSegmentTime(fst)
 			fS := tc.CalcFamilyStartTime(tSeg, tc.CalcFamily(fst, tSeg))
+			// the located target family is the one that contains the source family's start by the wall clock
+			if ref := refPlace(fst, tgt); ref.famStart != fS || ref.segT != tSeg {
+				c.Fail("rollup-target-family-vs-wall-clock", fmt.Sprintf("interval %d -> %d, source family start %d (%s): the rollup locates target segment %d, family start %d; by the wall clock the timestamp lies in segment %d, family %d starting at %d%s",
+					src, tgt, fst, time.UnixMilli(fst).In(time.Local).Format("2006-01-02T15:04:05Z07:00"), tSeg, fS, ref.segT, ref.fam, ref.famStart, zoneSuffix()))
+			}
 			if want := uint16(tc.CalcSlot(fst, fS, tgt)); r.BaseSlot() != want {
 				c.Fail("rollup-baseslot-vs-calculator", fmt.Sprintf("interval %d -> %d, source family start %d, target family start %d: BaseSlot() = %d, the target calculator's slot of the source family start is %d", src, tgt, fst, fS, r.BaseSlot(), want))
 			}
@@ -120,7 +140,12 @@ func arithCase(c *core.Ctx, rng *rand.Rand) {
 		}
 		c.Branch("arith-guard-" + guard)
 		c.Branch("arith-" + string(timeutil.Interval(src).Type()) + "-to-" + string(timeutil.Interval(tgt).Type()))
-		c.Guard(fmt.Sprintf("arith %d %d %d %d | %s", src, tgt, srcSeg, fTime, strings.Join(ss, " ")), eval)
+		if curZone != nil {
+			c.Guard(fmt.Sprintf("arithz %d %d %d %d | %s | %s", src, tgt, srcSeg, fTime, strings.Join(ss, " "), curZone.txt), eval)
+		} else {
+			c.Guard(fmt.Sprintf("arith %d %d %d %d | %s", src, tgt, srcSeg, fTime, strings.Join(ss, " ")), eval)
+		}
+		leave()
 	}
 	c.NonTrivial()
 }
